@@ -66,7 +66,9 @@ def consistent(G, im):
         p = I.pres(G, lo, hi)
     except Exception as ex:  # noqa
         return "observers raise: %s" % type(ex).__name__
-    fs = [f for f in oracles.c05(G.is_directed(), d, p, lo, hi) if f["clause"] != "C05.unclosed" or f["detail"]["run"][1] - f["detail"]["run"][0] != 1]
+    import classify
+    # the unclosed two-instant run (known finding D5) is not an inconsistency introduced by the call
+    fs = [f for f in oracles.c05(G.is_directed(), d, p, lo, hi) if not classify.d5_unclosed_two_instant_run("C05", {}, f)]
     if fs:
         return "stream out of step with presence: %s" % fs[0]["clause"]
     return None
@@ -250,6 +252,8 @@ def probe(tier, seed):
             if Gf is not G or not dn.is_frozen(G):
                 fails.append(F("C19.is_frozen", cls=cname))
             mutators = [(k[1]) for k, r in rows.items() if k[0] == cname and (r["effect"] > 0 or r["timed"])]
+            # node *data* may still be modified on a frozen graph (freeze's documented contract)
+            mutators = [m for m in mutators if m not in ("update_node_attr", "update_node_attr_from")]
             for name in sorted(set(mutators) | set(TIMED) | {"add_node", "add_nodes_from", "clear"}):
                 if not hasattr(G, name):
                     continue
